@@ -623,7 +623,7 @@ fn limits(pr: &Prob, ev: &Eval, coef: &[f64], inv: Option<&[f64]>) -> Limits {
     // tol as tightly there (observed: 4.5× instead of > 90× headroom); the first-order terms get ×10.
     let lag = if pr.alpha_class() == "alpha!=0,1" { 10.0 } else { 1.0 };
     let first_order_dev = if pr.alpha > 0.0 { lag * 2.0 * pr.alpha.max(1.0) * bnorm * step / ev.dev.max(f64::MIN_POSITIVE) } else { 0.0 };
-    let dev = K * pr.tol + 1e-10 + first_order_dev;
+    let dev = K * pr.tol + 1e-10 + first_order_dev + deviance_rounding(pr, ev, coef);
     // W_i = w_i μ'²/V is constant in η for Gaussian and the log-link gamma/exponential; for
     // Bernoulli / (quasi-)Poisson |d ln W_i / dη_i| ≤ 1, and |δη_i| ≤ sqrt(x_iᵀI⁻¹x_i)·sqrt(thr)
     let varying = matches!(pr.fam, Fam::Bernoulli | Fam::Poisson | Fam::QuasiPoisson);
@@ -646,6 +646,60 @@ fn limits(pr: &Prob, ev: &Eval, coef: &[f64], inv: Option<&[f64]>) -> Limits {
     let scale = coef.iter().fold(0.0f64, |m, v| m.max(v.abs())).max(1.0);
     let coef_lim = 2.0 * (2.0 * thr / lmin).sqrt() + 1e-9 * kappa * scale;
     Limits { dev, cov, coef: coef_lim }
+}
+
+/// Relative rounding error of a deviance evaluated in double precision by the textbook formula (what any
+/// implementation commits, and what therefore has to be granted on top of the convergence-scaled limit).
+/// Gaussian — the deviance IS the residual sum of squares Σ w (y − μ)²: a residual formed in floating point is
+/// off by |e_i| <= (p+3)·eps·(|y_i| + |o_i| + Σ_j |x_ij β_j|) (product sum, offset, subtraction), hence the sum of
+/// squares by <= 2·sqrt(RSS)·E + E², E² = Σ w_i e_i² — a term of size eps·‖y‖·‖r‖, NOT eps·‖y‖²: the squares of
+/// the responses never enter. It is ~1e-14 for ordinary signal-to-noise ratios and matters when the level of the
+/// response is 1e5 and more residual standard deviations.
+/// (Quasi-)Poisson — 2 Σ w [y ln y − y ln μ − y + μ] (the expanded form is as textbook as y ln(y/μ) − (y − μ)):
+/// eps·(|η_i| + 2) times the magnitude of each term.
+fn deviance_rounding(pr: &Prob, ev: &Eval, coef: &[f64]) -> f64 {
+    let p = pr.p;
+    let d = ev.dev;
+    if !(d > 0.0) {
+        return f64::INFINITY;
+    }
+    match pr.fam {
+        Fam::Gaussian => {
+            let mut e2 = 0.0;
+            for i in 0..pr.n {
+                let mag = pr.y[i].abs() + pr.oi(i).abs() + (0..p).map(|j| (pr.x[i * p + j] * coef[j]).abs()).sum::<f64>();
+                let e = (p + 3) as f64 * EPS * mag;
+                e2 += pr.wi(i) * e * e;
+            }
+            4.0 * (2.0 * (d * e2).sqrt() + e2) / d
+        }
+        Fam::Poisson | Fam::QuasiPoisson => {
+            let mut t = 0.0;
+            for i in 0..pr.n {
+                let (y, mu) = (pr.y[i], ev.mu[i]);
+                let eta = mu.ln().abs();
+                let ylogy = if y > 0.0 { (y * y.ln()).abs() } else { 0.0 };
+                t += pr.wi(i) * (eta + 2.0) * (ylogy + (y * mu.ln()).abs() + y + mu);
+            }
+            8.0 * EPS * t / d
+        }
+        _ => 0.0,
+    }
+}
+
+/// Σ w_i (y_i − o_i − x_iᵀβ)² with the linear predictor, the residual and the sum in double-double
+fn gaussian_rss_dd(pr: &Prob, beta: &[f64]) -> f64 {
+    let p = pr.p;
+    let mut rss = Dd::ZERO;
+    for i in 0..pr.n {
+        let mut eta = Dd::new(pr.oi(i));
+        for j in 0..p {
+            eta = eta + Dd::prod(pr.x[i * p + j], beta[j]);
+        }
+        let r = Dd::new(pr.y[i]) - eta;
+        rss = rss + Dd::new(pr.wi(i)) * (r * r);
+    }
+    rss.f()
 }
 
 /// All assertions on one successful fit. Returns the coefficients.
@@ -1941,8 +1995,359 @@ fn weights_case(i: usize, small: bool, rng: &mut Rng, rep: &mut Report) {
     }
 }
 
+
+// ---------------------------------------------------------------------------------------------
+// configuration histories that return to the neutral value (stream 7)
+//
+// "for the given design, weights and offsets ... with the configured strength": what is given is what the model
+// was LAST configured with. Every configurable part of a model has a neutral value — offsets of zero, weights
+// of one (or `weights = None`), strength 0, the default tolerance 1e-5 — and the public API has no way to
+// "unset" offsets other than `set_offset(&zeros)`: a caller who fitted a rate model with log-exposure offsets
+// and wants the same object without them does exactly that. Histories, for each part in
+// {offsets, weights, penalty, tolerance, family, max_iter}:
+//   value -> neutral      a non-neutral value, then the neutral one, then the judged fit
+//   neutral -> value      the reverse
+//   A -> B                two different non-neutral values
+//   same-again            the same non-neutral value given twice (family / max_iter: the same setting, fitted twice)
+// each with and without a `fit` of the same data between the two steps (the first fit's result is not judged: its
+// configuration is not the one the responses were simulated from). Judged like every reuse history by
+// `judge_reuse`: the whole single-fit oracle against the FINAL configuration and the comparison with a fresh
+// twin configured directly with the final setting (neutral values given explicitly: `set_offset(&zeros)`,
+// `set_weights(&ones)`); what only the history's object fails is signed `assertion|history:<part>:<pattern>`.
+
+const HPARTS: [&str; 6] = ["offsets", "weights", "penalty", "tolerance", "family", "max_iter"];
+const HPATTERNS: [&str; 4] = ["value->neutral", "neutral->value", "A->B", "same-again"];
+
+/// non-neutral offsets of the kinds users attach: noise around 0, log-exposure, a common shift
+fn draw_offsets(rng: &mut Rng, n: usize) -> Vec<f64> {
+    match rng.usize(0, 3) {
+        0 => (0..n).map(|_| rng.range(-0.5, 0.5)).collect(),
+        1 | 2 => (0..n).map(|_| (rng.int(1, 12) as f64).ln()).collect(),
+        _ => {
+            let c = rng.range(0.3, 1.5) * if rng.bool() { 1.0 } else { -1.0 };
+            (0..n).map(|_| c + rng.range(-0.1, 0.1)).collect()
+        }
+    }
+}
+
+/// a family the responses of `fam` are admissible for (other than `fam` itself)
+fn other_family_for(rng: &mut Rng, fam: Fam) -> Fam {
+    match fam {
+        Fam::Gaussian => Fam::Gaussian, // real responses: no other family takes them
+        Fam::Bernoulli => *rng.choose(&[Fam::Gaussian, Fam::Poisson, Fam::QuasiPoisson]),
+        Fam::Poisson => *rng.choose(&[Fam::Gaussian, Fam::QuasiPoisson]),
+        Fam::QuasiPoisson => *rng.choose(&[Fam::Gaussian, Fam::Poisson]),
+        Fam::Gamma => *rng.choose(&[Fam::Gaussian, Fam::Exponential]),
+        Fam::Exponential => *rng.choose(&[Fam::Gaussian, Fam::Gamma]),
+    }
+}
+
+fn history_case(i: usize, small: bool, rng: &mut Rng, rep: &mut Report) {
+    let part = HPARTS[i % 6];
+    let pattern = HPATTERNS[(i / 6) % 4];
+    let refit_between = (i / 24) % 2 == 0;
+    let q = i / 48;
+    let fam = FAMS[(q + i % 6) % 6];
+    let tol_final = TOLS[rng.usize(0, 3)];
+    let alpha_final = ALPHAS[rng.usize(0, 3)];
+    // patterns that do not exist for a part: family and max_iter have no neutral value
+    let pattern = if (part == "family" || part == "max_iter") && pattern.contains("neutral") { if pattern == "value->neutral" { "A->B" } else { "same-again" } } else { pattern };
+    if part == "family" && fam == Fam::Gaussian && pattern == "A->B" {
+        rep.seen("history:skipped(no other family admits real responses)", 1);
+        return;
+    }
+    let neutral_final = pattern == "value->neutral";
+    // ---- the final problem: responses simulated from the final configuration, MLE established
+    let mut fin: Option<Prob> = None;
+    for _attempt in 0..6 {
+        let n = if small { rng.usize(20, 24) } else { rng.log_range(20.0, 300.99).floor() as usize };
+        let p = if small { 2 } else { rng.usize(1, 5) };
+        let design = if p == 1 { "intercept-only" } else { *rng.choose(&["normal", "polynomial", "indicator"]) };
+        let (alpha, tol) = match part {
+            "penalty" => (if neutral_final { 0.0 } else { *rng.choose(&[0.1, 1.0, 10.0]) }, tol_final),
+            "tolerance" => (alpha_final, if neutral_final { 1e-5 } else { *rng.choose(&[1e-8, 1e-10, 1e-14]) }),
+            _ => (alpha_final, tol_final),
+        };
+        // the part under test is always configured explicitly; the other parts are drawn as in the main workload
+        let (wkind, given_w): (&'static str, Option<Option<Vec<f64>>>) = if part == "weights" {
+            if neutral_final {
+                ("ones", Some(Some(vec![1.0; n])))
+            } else {
+                let k = *rng.choose(&["random", "integer"]);
+                (k, None)
+            }
+        } else {
+            (*rng.choose(&["none", "none", "random", "integer"]), None)
+        };
+        let given_off: Option<Option<Vec<f64>>> = if part == "offsets" { Some(Some(if neutral_final { vec![if rng.chance(0.2) { -0.0 } else { 0.0 }; n] } else { draw_offsets(rng, n) })) } else { None };
+        let with_off = rng.chance(0.4);
+        if let Some(pr) = try_build(rng, fam, n, p, design, wkind, with_off, given_w.as_ref(), given_off.as_ref(), alpha, tol) {
+            fin = Some(pr);
+            break;
+        }
+    }
+    let Some(pf) = fin else {
+        rep.seen("excluded:no-mle-established-by-reference-fit", 1);
+        return;
+    };
+    let n = pf.n;
+    // ---- the configuration the object holds first
+    let mut p0 = pf.clone();
+    let mut first_budget = MAX_ITER;
+    let mut first_family = fam;
+    match (part, pattern) {
+        ("offsets", "neutral->value") => p0.off = Some(vec![0.0; n]),
+        ("offsets", "same-again") => {}
+        ("offsets", _) => p0.off = Some(draw_offsets(rng, n)),
+        ("weights", "neutral->value") => p0.w = Some(vec![1.0; n]),
+        ("weights", "same-again") => {}
+        ("weights", _) => p0.w = if rng.bool() { Some((0..n).map(|_| rng.int(2, 6) as f64).collect()) } else { Some((0..n).map(|_| rng.range(0.2, 4.0)).collect()) },
+        ("penalty", "neutral->value") => p0.alpha = 0.0,
+        ("penalty", "same-again") => {}
+        ("penalty", _) => p0.alpha = *rng.choose(&[0.1, 1.0, 10.0].iter().copied().filter(|a| *a != pf.alpha).collect::<Vec<_>>()),
+        ("tolerance", "neutral->value") => p0.tol = 1e-5,
+        ("tolerance", "same-again") => {}
+        ("tolerance", _) => p0.tol = *rng.choose(&[1e-8, 1e-10, 1e-14].iter().copied().filter(|t| *t != pf.tol).collect::<Vec<_>>()),
+        ("family", "A->B") => first_family = other_family_for(rng, fam),
+        ("max_iter", "A->B") => first_budget = rng.usize(1, 3),
+        _ => {}
+    }
+    let hist = format!("history:{}:{}", part, pattern);
+    let mut steps: Vec<String> = Vec::new();
+    let mut first: Option<(Result<bool, String>, u64)> = None;
+    let built = guard(|| {
+        let mut glm = GLM::new(first_family.lib());
+        glm.set_penalty(p0.alpha).set_tolerance(p0.tol);
+        steps.push(format!("set_penalty({})", p0.alpha));
+        steps.push(format!("set_tolerance({:e})", p0.tol));
+        if let Some(w) = &p0.w {
+            glm.set_weights(w);
+            steps.push("set_weights(first)".into());
+        }
+        if let Some(o) = &p0.off {
+            glm.set_offset(o);
+            steps.push(if o.iter().all(|v| *v == 0.0) { "set_offset(zeros)".into() } else { "set_offset(first)".into() });
+        }
+        // family and max_iter are exercised by a first fit in any case
+        if refit_between || part == "family" || part == "max_iter" {
+            first = Some(fit_on(&mut glm, &p0, first_budget));
+            steps.push(format!("fit(max_iter = {})", first_budget));
+        }
+        // the second step: the setter of the part under test is called whatever the value
+        match part {
+            "offsets" => {
+                let o = pf.off.as_ref().unwrap();
+                glm.set_offset(o);
+                steps.push(if o.iter().all(|v| *v == 0.0) { "set_offset(zeros)".into() } else { "set_offset(final)".into() });
+            }
+            "weights" => {
+                glm.set_weights(pf.w.as_ref().unwrap());
+                steps.push(if neutral_final { "set_weights(ones)".into() } else { "set_weights(final)".into() });
+            }
+            "penalty" => {
+                glm.set_penalty(pf.alpha);
+                steps.push(format!("set_penalty({})", pf.alpha));
+            }
+            "tolerance" => {
+                glm.set_tolerance(pf.tol);
+                steps.push(format!("set_tolerance({:e})", pf.tol));
+            }
+            "family" => {
+                glm.family = pf.fam.lib();
+                steps.push("family = (final)".into());
+            }
+            _ => {}
+        }
+        glm
+    });
+    let mut glm = match built {
+        Ok(g) => g,
+        Err(msg) => {
+            // a panic while the object held the FIRST configuration (whose responses were not simulated from it) is
+            // not a finding about the final one: counted
+            rep.seen("history:first-step-panicked", 1);
+            let _ = msg;
+            return;
+        }
+    };
+    if let Some((Err(_), _)) = &first {
+        rep.seen("history:first-step-panicked", 1);
+        return;
+    }
+    let (r, it) = fit_on(&mut glm, &pf, MAX_ITER);
+    let history = || {
+        json!({"history": hist, "steps_before_final_fit": steps, "first_configuration": {"family": first_family.name(), "alpha": p0.alpha, "tolerance": p0.tol, "weights": p0.w.as_ref().map(|w| jf(w)), "offsets": p0.off.as_ref().map(|o| jf(o))},
+               "first_fit": first.as_ref().map(|(r, it)| json!({"returned": format!("{:?}", r), "iterations": it})), "twin": "GLM::new(final family) configured once by set_penalty / set_tolerance / set_weights / set_offset with the final values"})
+    };
+    rep.seen(&format!("history:{}", part), 1);
+    rep.seen(&format!("history:pattern={}", pattern), 1);
+    rep.seen(if refit_between { "history:fit-between-steps" } else { "history:no-fit-between-steps" }, 1);
+    rep.seen(&format!("history:{}", fam.name()), 1);
+    judge_reuse(rep, &hist, &format!("history:{}", part), &pf, &glm, r, it, &history);
+}
+
+// ---------------------------------------------------------------------------------------------
+// responses with a large level relative to the noise (stream 8)
+//
+// "The reported deviance is the family's deviance at the fitted means (the residual sum of squares for Gaussian)":
+// nothing in the property ties the size of the response to the size of its scatter. Calibration-grade and
+// synthetic data are near-exact (noise 1e-3..1e-9 of the signal); a response may ride on a large known baseline
+// given as offset (epoch seconds, counters, elevations) with ordinary noise; counts are large when the exposure
+// is; a gamma response with a large shape scatters by a fraction of a per cent. In all of these the deviance is
+// many orders of magnitude smaller than the squared responses.
+//   gaussian:near-exact           |β| <= 1.5, sigma = max|η| / ratio, ratio log-uniform 1e3..1e9 (alpha = 0: with a
+//                                 penalty the fit is no longer near the data)
+//   gaussian:offset-baseline      offsets of size ratio·sigma (constant, constant + drift, ±10 %), sigma in 0.3..2
+//   poisson / quasipoisson:large-exposure   offsets ln(exposure), exposure 1e2..1e5 (|η| <= 15 as everywhere)
+//   gamma:high-shape              shape 1e2..1e6 (alpha = 0)
+// Oracle: the whole single-fit oracle (signed `|level:<kind>`), whose deviance limit now carries the rounding
+// term of `deviance_rounding`; and for the Gaussian kinds the reported deviance against the residual sum of
+// squares at the returned coefficients with linear predictor, residuals and sum in double-double
+// (`C06.deviance.gaussian_rss`), within the same limit.
+
+const LEVELS: [&str; 5] = ["gaussian:near-exact", "gaussian:offset-baseline", "poisson:large-exposure", "quasipoisson:large-exposure", "gamma:high-shape"];
+
+/// harness-side simulation only: Poisson(λ), by the normal approximation for λ > 400
+fn poisson_any(rng: &mut Rng, lambda: f64) -> f64 {
+    if lambda <= 400.0 {
+        rng.poisson(lambda)
+    } else {
+        (lambda + lambda.sqrt() * rng.normal()).round().max(0.0)
+    }
+}
+
+fn level_case(i: usize, small: bool, rng: &mut Rng, rep: &mut Report) {
+    let kind = LEVELS[[0usize, 1, 0, 1, 2, 3, 4][i % 7]];
+    let tol = TOLS[(i / 7) % 4];
+    let fam = match kind {
+        "poisson:large-exposure" => Fam::Poisson,
+        "quasipoisson:large-exposure" => Fam::QuasiPoisson,
+        "gamma:high-shape" => Fam::Gamma,
+        _ => Fam::Gaussian,
+    };
+    let alpha = if kind == "gaussian:near-exact" || kind == "gamma:high-shape" { 0.0 } else { ALPHAS[(i / 28) % 4] };
+    let mut found: Option<(Prob, f64)> = None;
+    for _attempt in 0..6 {
+        let n = if small { rng.usize(20, 24) } else { rng.log_range(20.0, 500.99).floor() as usize };
+        let p = if small { 2 } else { rng.usize(1, 6) };
+        let design = if p == 1 { "intercept-only" } else { *rng.choose(&["normal", "polynomial", "indicator"]) };
+        let Some(x) = gen_design(rng, design, n, p) else { continue };
+        let mut beta: Vec<f64> = (0..p).map(|_| rng.range(-1.5, 1.5)).collect();
+        let nb = beta[1..].iter().map(|b| b * b).sum::<f64>().sqrt();
+        if nb > 1.5 {
+            let r = 1.5 * rng.range(0.3, 1.0) / nb;
+            beta[1..].iter_mut().for_each(|b| *b *= r);
+        }
+        let wkind = *rng.choose(&["none", "none", "random", "integer"]);
+        let w = draw_weights(rng, wkind, n);
+        let lin = |beta: &[f64], off: &Option<Vec<f64>>| -> Vec<f64> { (0..n).map(|r| off.as_ref().map(|o| o[r]).unwrap_or(0.0) + (0..p).map(|j| x[r * p + j] * beta[j]).sum::<f64>()).collect() };
+        let ratio = rng.log_range(1e3, 1e9);
+        let (off, y, level): (Option<Vec<f64>>, Vec<f64>, f64) = match kind {
+            "gaussian:near-exact" => {
+                beta[0] = rng.range(0.5, 1.5) * if rng.bool() { 1.0 } else { -1.0 };
+                let off: Option<Vec<f64>> = if rng.chance(0.3) { Some((0..n).map(|_| rng.range(-0.5, 0.5)).collect()) } else { None };
+                let eta = lin(&beta, &off);
+                let sigma = eta.iter().fold(0.0f64, |m, v| m.max(v.abs())) / ratio;
+                let y = eta.iter().map(|e| e + sigma * rng.normal()).collect();
+                (off, y, ratio)
+            }
+            "gaussian:offset-baseline" => {
+                beta[0] = rng.range(-1.5, 1.5);
+                let sigma = rng.range(0.3, 2.0);
+                let l = ratio * sigma * if rng.chance(0.25) { -1.0 } else { 1.0 };
+                let off: Vec<f64> = match rng.usize(0, 2) {
+                    0 => vec![l; n],
+                    1 => {
+                        let step = rng.range(1.0, 60.0);
+                        (0..n).map(|r| l.round() + (r as f64) * step).collect()
+                    }
+                    _ => (0..n).map(|_| l * rng.range(0.9, 1.1)).collect(),
+                };
+                let off = Some(off);
+                let eta = lin(&beta, &off);
+                let y = eta.iter().map(|e| e + sigma * rng.normal()).collect();
+                (off, y, ratio)
+            }
+            "poisson:large-exposure" | "quasipoisson:large-exposure" => {
+                beta[0] = rng.range(0.0, 1.5);
+                let e0 = rng.log_range(1e1, 1e4);
+                let vary = rng.bool();
+                let off: Vec<f64> = (0..n).map(|_| (e0 * if vary { rng.log_range(0.3, 3.0) } else { 1.0 }).ln()).collect();
+                let off = Some(off);
+                let eta = lin(&beta, &off);
+                let k = rng.range(2.0, 10.0);
+                let y = eta.iter().map(|e| { let g = if fam == Fam::QuasiPoisson { rng.gamma(k) / k } else { 1.0 }; poisson_any(rng, e.exp() * g) }).collect();
+                (off, y, e0.sqrt())
+            }
+            _ => {
+                beta[0] = rng.range(-1.0, 1.5);
+                let off: Option<Vec<f64>> = if rng.chance(0.3) { Some((0..n).map(|_| rng.range(-0.5, 0.5)).collect()) } else { None };
+                let eta = lin(&beta, &off);
+                let k = rng.log_range(1e2, 1e6);
+                let y = eta.iter().map(|e| (e.exp() * rng.gamma(k) / k).max(1e-300)).collect();
+                (off, y, k.sqrt())
+            }
+        };
+        let pr = Prob { fam, n, p, x, y, w, off, alpha, tol, design, wkind };
+        if mle_established(&pr) {
+            found = Some((pr, level));
+            break;
+        }
+    }
+    let Some((pr, level)) = found else {
+        rep.seen("excluded:no-mle-established-by-reference-fit", 1);
+        return;
+    };
+    let mut regime = format!("level:{}", kind);
+    rep.case(&regime);
+    // Found on the unmodified library by this family: the scoring loop starts every family at intercept = mean(y).
+    // For a log link that is a linear predictor of mean(y) + offset; when exp of it is finite but its square is
+    // not (mean(y) + offset in about 355..709) the working weights mu^2/mu are infinite, the Newton step is 0,
+    // the deviance does not change and `fit` reported success with the START VALUE as coefficients (since repaired
+    // in the library: a non-finite score or information matrix is an Err). That mechanism keeps its own regime label.
+    if matches!(fam, Fam::Poisson | Fam::QuasiPoisson | Fam::Gamma | Fam::Exponential) {
+        let ybar = pr.y.iter().sum::<f64>() / pr.n as f64;
+        // Σ w_i mu_i² over the observations whose start mean is finite
+        let t: f64 = (0..pr.n).map(|i| { let m = (ybar + pr.oi(i)).exp(); if m.is_finite() { pr.wi(i) * m * m } else { 0.0 } }).sum();
+        if !t.is_finite() {
+            regime = "level:log-link:start-mu-squared-overflows".to_string();
+            rep.case(&regime);
+        }
+    }
+    let decade = if level < 1e2 { "level/sd<1e2" } else if level < 1e3 { "level/sd=1e2..1e3" } else if level < 1e5 { "level/sd=1e3..1e5" } else if level < 1e7 { "level/sd=1e5..1e7" } else { "level/sd=1e7..1e9" };
+    rep.seen(&format!("level:{}", decade), 1);
+    rep.seen(&format!("level:w={}", pr.wkind), 1);
+    rep.seen(&format!("level:tol={:e}", tol), 1);
+    rep.distinct(Hasher::new().s(&regime).u(pr.n as u64).u(pr.p as u64).f(alpha).f(tol).s(pr.wkind).f(level).fs(&pr.y[..4]).finish(), pr.p >= 2);
+    let Some(f) = fit_and_check(rep, &pr, Some(&regime)) else {
+        rep.seen("level:fit-returned-err-or-not-judged", 1);
+        return;
+    };
+    rep.seen(&format!("{}:judged", regime), 1);
+    rep.seen(&format!("level:{}:judged", decade), 1);
+    let dev_lib = f.glm.deviance().unwrap_or(f64::NAN);
+    if fam == Fam::Gaussian {
+        let rss = gaussian_rss_dd(&pr, &f.coef);
+        let lim = f.lims.dev + 8.0 * pr.n as f64 * EPS;
+        let e = rel_err(dev_lib, rss);
+        let rounding = deviance_rounding(&pr, &f.ev, &f.coef);
+        rep.note_max("worst_ratio.level.gaussian_deviance_vs_dd_rss_over_limit", e / lim);
+        if alpha == 0.0 {
+            // unpenalised Gaussian fits have no first-order lag: the rounding term is what the library is measured against
+            rep.note_max(&format!("worst_ratio.level.gaussian_deviance_vs_dd_rss_over_rounding_term_alone.alpha=0.tol={:e}", tol), e / (rounding + 8.0 * pr.n as f64 * EPS));
+        }
+        rep.check("C06.deviance.gaussian_rss", &regime, e <= lim, || {
+            let sum_y2: f64 = (0..pr.n).map(|i| pr.wi(i) * pr.y[i] * pr.y[i]).sum();
+            json!({"problem": pr.json(), "coef": jf(&f.coef), "deviance_reported": jnum(dev_lib), "residual_sum_of_squares_double_double": rss, "relative_error": jnum(e), "limit": lim,
+                   "limit_parts": {"K_tol_plus_1e-10_plus_lag": f.lims.dev - rounding, "rounding_of_residuals(eps*|y|*|r| term)": rounding}, "level_over_sd": level,
+                   "diagnosis": {"eps_times_weighted_sum_of_squared_responses_over_rss": EPS * sum_y2 / rss}})
+        });
+    }
+    rep.sample(|| json!({"regime": regime, "n": pr.n, "p": pr.p, "alpha": alpha, "tolerance": tol, "weights": pr.wkind, "level_over_sd": level, "deviance_reported": jnum(dev_lib), "deviance_oracle": f.ev.dev}));
+}
+
 pub fn run(cfg: &Cfg, rep: &mut Report) {
-    rep.rule = "case i: family = i mod 6, alpha = {0,0.1,1,10}[(i/6) mod 4], tol in {1e-5,1e-8,1e-10,1e-14}; n log-uniform in 20..500 (first 96 cases outside lite mode: n in 20..24, p = 2, so that replay records are small), p in 1..6 columns incl. intercept, design in {standardised normal, raw powers of t in [-1,1], 0/1 indicators mixed with normal}, weights {none, U(0.5,3), integer 1..3 (also fitted as replicated rows)}, offsets {none, U(-0.5,0.5)}; slopes in the ball of radius 1.5, responses simulated by the harness's own samplers (quasi-Poisson: gamma-mixed Poisson); half of the cases refitted on permuted rows; max_iter = 300. Then directed cases: max_iter in {1,2,3} and perfectly separable logistic data. Then object-reuse histories (case i: mode = i mod 9, family = (i/9) mod 6, alpha by (i/54) mod 4, weights imposed in 2/3 of the cases): one model object is fitted with max_iter in {1,2,3} (Err) and retried with max_iter = 300, as is or after set_tolerance; or fitted with max_iter = 300 and then refitted on new data of the same length (keeping its weights/offsets), on data with another n and p, after set_weights, after set_offset with new data, after set_penalty or set_tolerance; or set_coef on a new model and then fitted; the final fit gets the whole single-fit oracle and is compared with a fresh twin. Then non-integer responses (case i: kind = i mod 5 of {Poisson rates c/e with weights e (integer 1..12 or U(0.5,8)), quasi-Poisson rates, quasi-Poisson phi*Poisson(mu/phi) with phi in 0.05..0.9 or 1.1..3, gamma and exponential responses with intercept in -6..-1.5}, alpha by (i/5) mod 4, tol by (i/20) mod 4): single-fit oracle plus the equivalence with the ordinary twin (counts with offset ln e; the counts z = y/phi; the responses scaled by a power of two). Then configuration routes (case i: route = i mod 6 of {public fields, fields over setters, setters over fields, family field, clone, fields re-assigned between two fits}, family = (i/6) mod 6, weights imposed in 2/3 of the cases): single-fit oracle and comparison with the setters-only twin. Then structured weight vectors (case i: structure = i mod 4 of {constant, two-valued, with exact zeros (10-40 % of the rows), generic}, integer-valued / real by (i/4) mod 2, family = (i/8) mod 6, base strength a0 = {0,0.1,0,1,0,10}[(i/48) mod 6]): base weights w0 of ordinary size (ones; {1,2},{1,3},{2,5},{1,10} or U(0.2,1)/U(1,5); integers 1..3 or U(0.5,3)), the fitted pair (c*w0, c*a0) and (w0, a0) with c in {2,3,4,5,7,10,100,1000,1e6} or log-uniform 1e-6..1e6 (a0 = 0) resp. c in {0.01,0.1,10,100} such that c*a0 is again 0.1, 1 or 10: single-fit oracle on both, rescaling relation, replication relation for integer-valued weights of sum <= 1500, dropped-rows relation for zero weights. non-trivial = p >= 2 and >= 2 Fisher iterations observed through the glm.iter hook; distinct by (family, n, p, alpha, tol, weights, design, offsets, first responses)".into();
+    rep.rule = "case i: family = i mod 6, alpha = {0,0.1,1,10}[(i/6) mod 4], tol in {1e-5,1e-8,1e-10,1e-14}; n log-uniform in 20..500 (first 96 cases outside lite mode: n in 20..24, p = 2, so that replay records are small), p in 1..6 columns incl. intercept, design in {standardised normal, raw powers of t in [-1,1], 0/1 indicators mixed with normal}, weights {none, U(0.5,3), integer 1..3 (also fitted as replicated rows)}, offsets {none, U(-0.5,0.5)}; slopes in the ball of radius 1.5, responses simulated by the harness's own samplers (quasi-Poisson: gamma-mixed Poisson); half of the cases refitted on permuted rows; max_iter = 300. Then directed cases: max_iter in {1,2,3} and perfectly separable logistic data. Then object-reuse histories (case i: mode = i mod 9, family = (i/9) mod 6, alpha by (i/54) mod 4, weights imposed in 2/3 of the cases): one model object is fitted with max_iter in {1,2,3} (Err) and retried with max_iter = 300, as is or after set_tolerance; or fitted with max_iter = 300 and then refitted on new data of the same length (keeping its weights/offsets), on data with another n and p, after set_weights, after set_offset with new data, after set_penalty or set_tolerance; or set_coef on a new model and then fitted; the final fit gets the whole single-fit oracle and is compared with a fresh twin. Then non-integer responses (case i: kind = i mod 5 of {Poisson rates c/e with weights e (integer 1..12 or U(0.5,8)), quasi-Poisson rates, quasi-Poisson phi*Poisson(mu/phi) with phi in 0.05..0.9 or 1.1..3, gamma and exponential responses with intercept in -6..-1.5}, alpha by (i/5) mod 4, tol by (i/20) mod 4): single-fit oracle plus the equivalence with the ordinary twin (counts with offset ln e; the counts z = y/phi; the responses scaled by a power of two). Then configuration routes (case i: route = i mod 6 of {public fields, fields over setters, setters over fields, family field, clone, fields re-assigned between two fits}, family = (i/6) mod 6, weights imposed in 2/3 of the cases): single-fit oracle and comparison with the setters-only twin. Then structured weight vectors (case i: structure = i mod 4 of {constant, two-valued, with exact zeros (10-40 % of the rows), generic}, integer-valued / real by (i/4) mod 2, family = (i/8) mod 6, base strength a0 = {0,0.1,0,1,0,10}[(i/48) mod 6]): base weights w0 of ordinary size (ones; {1,2},{1,3},{2,5},{1,10} or U(0.2,1)/U(1,5); integers 1..3 or U(0.5,3)), the fitted pair (c*w0, c*a0) and (w0, a0) with c in {2,3,4,5,7,10,100,1000,1e6} or log-uniform 1e-6..1e6 (a0 = 0) resp. c in {0.01,0.1,10,100} such that c*a0 is again 0.1, 1 or 10: single-fit oracle on both, rescaling relation, replication relation for integer-valued weights of sum <= 1500, dropped-rows relation for zero weights. Then configuration histories (case i: part = i mod 6 of {offsets, weights, penalty, tolerance, family, max_iter}, pattern = (i/6) mod 4 of {value -> neutral, neutral -> value, A -> B, the same value again}, a fit between the two steps for (i/24) mod 2 = 0; offsets U(-0.5,0.5), ln(1..12) or a common shift; neutral = zeros / ones / 0 / 1e-5): single-fit oracle on the history's object against the final configuration and comparison with the fresh twin. Then responses with a large level relative to the noise (case i: kind by i mod 7 of {near-exact Gaussian, Gaussian on an offset baseline (x2 each), Poisson and quasi-Poisson with exposures 1e2..1e5, gamma with shape 1e2..1e6}, level/sd log-uniform 1e3..1e9 for the Gaussian kinds, tol by (i/7) mod 4): single-fit oracle and, for Gaussian, the reported deviance against the double-double residual sum of squares. non-trivial = p >= 2 and >= 2 Fisher iterations observed through the glm.iter hook; distinct by (family, n, p, alpha, tol, weights, design, offsets, first responses)".into();
     rep.assume("the MLE exists: a case is used only if the harness's own damped Fisher scoring converges (for the configured strength and for strength 1) with max |eta| <= 15; others are counted under excluded:*");
     rep.assume("designs with scaled Gram condition number > 1e6 are re-drawn");
     rep.assume("deviance / dispersion-based standard errors / BIC are checked by value only for unweighted and integer-weighted fits (n = rows resp. weight sum); for non-integer weights the property does not fix n, only internal consistency is checked");
@@ -2042,6 +2447,53 @@ pub fn run(cfg: &Cfg, rep: &mut Report) {
         }
         for l in ["weights:factor<1e-3", "weights:factor=1e-3..1", "weights:factor=1..1e3", "weights:factor>1e3"] {
             rep.require(l, 1);
+        }
+    }
+
+    // configuration histories back to the neutral value (stream 7)
+    rep.assume("the configuration in force at a fit is the one given last: a history value -> neutral (set_offset(&zeros) — the only way the API offers to remove offsets —, set_weights(&ones), set_penalty(0), set_tolerance(1e-5)), neutral -> value, A -> B, or the same value twice, with or without a fit between the steps, is inside the quantifier; the history's object gets the single-fit oracle against the final configuration and is compared with a fresh twin that was given the final values once (neutral values explicitly); a panic or Err of the first fit (whose configuration the responses were not simulated from) is counted, not judged");
+    // interpreter layer: one case per part (pattern value -> neutral resp. A -> B), small problems
+    let nh = if cfg.miri() { 6 } else { cfg.pick(576, 6912, 12) };
+    par_cases(cfg, rep, 7, nh, |i, rng: &mut Rng, rep| history_case(i, cfg.miri(), rng, rep));
+    // (a lite run has 12 cases: the first two patterns of every part)
+    for part in ["offsets", "weights", "penalty", "tolerance"] {
+        for pat in if cfg.miri() { &HPATTERNS[..1] } else if cfg.lite { &HPATTERNS[..2] } else { &HPATTERNS[..] } {
+            rep.require(&format!("history:{}:{}", part, pat), 1);
+            if !cfg.lite {
+                rep.require(&format!("history:{}:{}:ok", part, pat), 1);
+            }
+        }
+    }
+    for part in ["family", "max_iter"] {
+        for pat in if cfg.miri() { &["A->B"][..] } else { &["A->B", "same-again"][..] } {
+            rep.require(&format!("history:{}:{}", part, pat), 1);
+        }
+    }
+    if !cfg.lite {
+        rep.require("history:fit-between-steps", 1);
+        rep.require("history:no-fit-between-steps", 1);
+        for f in FAMS {
+            rep.require(&format!("history:{}", f.name()), 1);
+        }
+    }
+
+    // responses with a large level relative to the noise (stream 8)
+    rep.assume("responses whose level is 1e3..1e9 residual standard deviations (near-exact Gaussian data with |beta| <= 1.5 and sigma down to 1e-9 of the signal; a Gaussian response on an offset baseline of that size), counts with exposures 1e2..1e5 given as log-offset, gamma responses of shape 1e2..1e6 are inside the quantifier; the deviance limit carries the rounding term of the textbook formula: Gaussian 4(2 sqrt(RSS) E + E^2)/RSS with E^2 = sum w_i ((p+3) eps (|y_i| + |o_i| + sum_j |x_ij b_j|))^2 — the rounding of the residuals themselves, of size eps |y| |r|, not eps |y|^2 —, (quasi-)Poisson 8 eps sum w (|eta|+2)(|y ln y| + |y ln mu| + y + mu)/D");
+    // interpreter layer: the two Gaussian kinds only
+    let nl = if cfg.miri() { 2 } else { cfg.pick(336, 5040, 7) };
+    par_cases(cfg, rep, 8, nl, |i, rng: &mut Rng, rep| level_case(i, cfg.miri(), rng, rep));
+    for k in if cfg.miri() { &LEVELS[..2] } else { &LEVELS[..] } {
+        rep.require(&format!("level:{}", k), 1);
+        if !cfg.lite {
+            rep.require(&format!("level:{}:judged", k), 1);
+        }
+    }
+    if !cfg.lite {
+        for d in ["level/sd=1e3..1e5", "level/sd=1e5..1e7", "level/sd=1e7..1e9"] {
+            rep.require(&format!("level:{}:judged", d), 1);
+        }
+        for t in TOLS {
+            rep.require(&format!("level:tol={:e}", t), 1);
         }
     }
 
